@@ -608,6 +608,8 @@ class DataLinkConnection(TransmissionControlObject):
 
         if rcvd_pdu.name not in self.DLC_PDU_NAMES:
             self.err("non connection mode pdu on data link connection")
+            if self.state.LISTEN:
+                return  # a listening socket stays, the PDU is discarded
             send_pdu = pdu.FrameReject.from_pdu(rcvd_pdu, flags="W", dlc=self)
             self.state.SHUTDOWN = True  # close without disconnect handshake
             self.close()
